@@ -238,7 +238,8 @@ def resume_attempt(ctx, rng, servers, stored, W, r):
     sess = r.session
     ver = r.ver
     tamper = rng.choice(["none", "none", "none", "flip_ticket",
-                         "trunc_ticket", "unknown_id", "force_offer"])
+                         "trunc_ticket", "unknown_id", "force_offer",
+                         "bad_finished"])
     change = rng.choice(["none", "none", "none", "none", "drop_ems",
                          "drop_etm", "sni", "suites", "lower_version"])
     to = r.server if rng.random() < 0.8 else ("B" if r.server == "A"
@@ -388,6 +389,21 @@ def resume_attempt(ctx, rng, servers, stored, W, r):
                                               if srv.cache else 0)))
     # ---------------- run
     p = Pair()
+    badfin = {"hit": False}
+    if tamper == "bad_finished" and ver < (3, 4):
+        # a client that holds the session but sends a wrong Finished: the
+        # attempt itself has to fail, and a session ID whose abbreviated
+        # handshake ended in a fatal alert is invalidated (RFC 5246 7.2.2)
+        from vt import adv
+
+        def rw(i, t, msg, raw):
+            if t == 20:
+                b = bytearray(raw)
+                b[-1] ^= 1
+                badfin["hit"] = True
+                return [adv.Raw(22, bytes(b))]
+            return None
+        adv.Deviant(p.c, rw)
     try:
         tc, ts = p.handshake(fl)
     except Exception as e:   # noqa
@@ -395,6 +411,35 @@ def resume_attempt(ctx, rng, servers, stored, W, r):
         return
     ctx.ev()
     ctx.count("resume_attempts")
+    if badfin["hit"]:
+        from vt import wire
+        ctx.count("bad_finished_attempts")
+        W["steps"].append(["resume_bad_finished", mech, pair.VNAME[ver],
+                           "to=" + to, "out=%s/%s" % (outcome(tc),
+                                                     outcome(ts))])
+        if ts.status == "done":
+            ctx.violation({"mech": mech, "ver": pair.VNAME[ver],
+                           "clause": "bad_finished_accepted"}, W,
+                          "server completed a handshake whose client "
+                          "Finished was wrong")
+            return
+        # did the server answer with the abbreviated handshake?
+        sh = [b for t, b in wire.plain_handshake(p.link.records, "s2c")
+              if t == 2]
+        took = False
+        if sh and s2.sessionID:
+            sl = sh[0][34]
+            took = bytes(sh[0][35:35 + sl]) == bytes(s2.sessionID) and \
+                11 not in [t for t, _ in wire.plain_handshake(
+                    p.link.records, "s2c")]
+        if took and mech == "id" and to == r.server and \
+                isinstance(ts.exc, E.TLSLocalAlert):
+            r.closed_how = "server_fatal"
+            ctx.count("session_id_invalidated_by_failed_resumption")
+        ctx.cell("cell", "%s|%s|bad_finished|%s" % (mech, pair.VNAME[ver],
+                                                  "abbreviated" if took
+                                                  else "full"))
+        return
     if isinstance(tc.exc, ValueError) and not p.link.recs("c2s"):
         # the client refused locally, before sending anything, to offer a
         # session that does not fit its new parameters (documented)
